@@ -23,11 +23,16 @@ pub enum Ev {
     Rewind,
     /// the same backwards move made with dec()
     RewindDec,
+    /// reset_eta / a backwards seek only 1 ms after the previous event (and after the read that precedes every event)
+    ResetEtaSoon,
+    RewindSoon,
     Finish,
     Abandon,
 }
 
 pub struct C09 {
+    /// the bar is built with with_elapsed(this many seconds)
+    pub with_elapsed: Option<u64>,
     pub steady: Option<u64>,
     /// the bar has no length (per_sec laws still apply; eta and duration are zero)
     pub no_len: bool,
@@ -52,7 +57,18 @@ fn query(pb: &ProgressBar, base: u64) -> Vec<Q> {
 }
 
 fn apply(pb: &ProgressBar, ev: &Ev, pos: &mut u64) {
+    // reading the estimate is free of side effects: it happens before every event
+    let _ = (pb.per_sec(), pb.eta(), pb.duration());
     match ev {
+        Ev::ResetEtaSoon => {
+            clock::advance_ns(MS);
+            pb.reset_eta();
+        }
+        Ev::RewindSoon => {
+            clock::advance_ns(MS);
+            *pos /= 2;
+            pb.set_position(*pos);
+        }
         Ev::Inc(gap, d) => {
             clock::advance_ns(*gap);
             pb.inc(*d);
@@ -103,9 +119,13 @@ fn rel_close(a: f64, b: f64, tol: f64) -> bool {
 
 impl C09 {
     fn config(&self) -> String {
-        match self.steady {
-            None => if self.no_len { "transient, unknown length".into() } else { "transient".into() },
+        let base = match self.steady {
+            None => if self.no_len { "transient, unknown length".to_string() } else { "transient".to_string() },
             Some(r) => format!("steady {r}/s"),
+        };
+        match self.with_elapsed {
+            Some(s) => format!("{base}, built with_elapsed({s} s)"),
+            None => base,
         }
     }
 }
@@ -138,13 +158,15 @@ impl Hist for C09 {
                     match e {
                         Ev::Inc(_, d) => pos += d,
                         Ev::Reset => pos = 0,
-                        Ev::Rewind | Ev::RewindDec => pos /= 2,
+                        Ev::Rewind | Ev::RewindDec | Ev::RewindSoon => pos /= 2,
                         _ => {}
                     }
                 }
+                v.push(Ev::ResetEtaSoon);
                 if pos >= 2 {
                     v.push(Ev::Rewind);
                     v.push(Ev::RewindDec);
+                    v.push(Ev::RewindSoon);
                 }
                 v
             }
@@ -154,6 +176,7 @@ impl Hist for C09 {
     fn show(&self, op: &Ev) -> String {
         match op {
             Ev::Inc(g, d) => format!("+{}ns inc({})", g, d),
+            o @ (Ev::ResetEtaSoon | Ev::RewindSoon) => format!("+1ms {:?}", o),
             o => format!("+1s {:?}", o),
         }
     }
@@ -164,7 +187,10 @@ impl Hist for C09 {
         clock::reset();
         let mut pos = 0u64;
         let r = catch(|| {
-            let pb = ProgressBar::with_draw_target(if self.no_len { None } else { Some(LEN) }, ProgressDrawTarget::hidden());
+            let mut pb = ProgressBar::with_draw_target(if self.no_len { None } else { Some(LEN) }, ProgressDrawTarget::hidden());
+            if let Some(secs) = self.with_elapsed {
+                pb = pb.with_elapsed(Duration::from_secs(secs));
+            }
             for ev in hist {
                 apply(&pb, ev, &mut pos);
             }
@@ -178,7 +204,7 @@ impl Hist for C09 {
         };
         let finished = matches!(hist.last(), Some(Ev::Finish | Ev::Abandon));
         // segments since the last reset-like event
-        let k = hist.iter().rposition(|e| matches!(e, Ev::ResetEta | Ev::Reset | Ev::ResetElapsed | Ev::Rewind | Ev::RewindDec));
+        let k = hist.iter().rposition(|e| matches!(e, Ev::ResetEta | Ev::Reset | Ev::ResetElapsed | Ev::Rewind | Ev::RewindDec | Ev::ResetEtaSoon | Ev::RewindSoon));
         let after: &[Ev] = match k {
             Some(k) => &hist[k + 1..],
             None => hist,
@@ -267,8 +293,8 @@ impl Hist for C09 {
                             s2 = s2 * w + (s1 / tw) * (1.0 - w);
                             prev_t = t;
                         }
-                        _ => {
-                            t += 1.0;
+                        other => {
+                            t += if matches!(other, Ev::ResetEtaSoon | Ev::RewindSoon) { 0.001 } else { 1.0 };
                             pending = 0.0;
                             s1 = 0.0;
                             s2 = 0.0;
@@ -339,10 +365,13 @@ impl Hist for C09 {
 
 fn configs(tier: Tier) -> Vec<(C09, usize)> {
     let (d, ds) = if tier == Tier::Quick { (4, 5) } else { (6, 8) };
-    let mut v = vec![(C09 { steady: None, no_len: false }, d), (C09 { steady: None, no_len: true }, d - 1)];
+    let mut v = vec![(C09 { with_elapsed: None, steady: None, no_len: false }, d), (C09 { with_elapsed: None, steady: None, no_len: true }, d - 1)];
     for r in [1u64, 1_000, 1_000_000, 1_000_000_000_000] {
-        v.push((C09 { steady: Some(r), no_len: false }, ds));
+        v.push((C09 { with_elapsed: None, steady: Some(r), no_len: false }, ds));
     }
+    // bars built with an elapsed time restored from an earlier run
+    v.push((C09 { with_elapsed: Some(120), steady: Some(1_000), no_len: false }, ds));
+    v.push((C09 { with_elapsed: Some(5), steady: None, no_len: false }, d - 1));
     v
 }
 
@@ -356,7 +385,7 @@ pub fn meta(tier: Tier) -> Meta {
     let (d, ds) = if tier == Tier::Quick { (4, 5) } else { (6, 8) };
     Meta {
         level: "model_checking",
-        rule: format!("virtual-time histories on a hidden bar of length 1e18: every sequence of <= {d} events from (gap in {{0,1 ms,7 ms,1 s,15 s,1 h,1 d}}) x inc({{1,1e3,1e9}}) (gap 0 = an update the estimator cannot sample) plus reset_eta/reset/reset_elapsed/backwards seek (set_position and dec)/finish/abandon, and every steady-rate gap sequence of <= {ds} updates for rates 1,1e3,1e6,1e12 per second; after every history per_sec/eta/duration/elapsed are read at 8 instants from +1 ns to +30 d with the clock frozen; laws L1-L6 incl. a differential fresh-bar oracle for forgetfulness; a state is the vector of reported rates; non-trivial = at least one progress sample since the last reset"),
+        rule: format!("virtual-time histories on a hidden bar of length 1e18: every sequence of <= {d} events from (gap in {{0,1 ms,7 ms,1 s,15 s,1 h,1 d}}) x inc({{1,1e3,1e9}}) (gap 0 = an update the estimator cannot sample) plus reset_eta/reset/reset_elapsed/backwards seek (set_position and dec)/finish/abandon, and every steady-rate gap sequence of <= {ds} updates for rates 1,1e3,1e6,1e12 per second (also on bars built with_elapsed); the estimate is read before every event, and reset_eta / a backwards seek also come 1 ms after the previous event; after every history per_sec/eta/duration/elapsed are read at 8 instants from +1 ns to +30 d with the clock frozen; laws L1-L6 incl. a differential fresh-bar oracle for forgetfulness; a state is the vector of reported rates; non-trivial = at least one progress sample since the last reset"),
         assumptions: vec!["virtual clock by clock_gettime interposition; queries move the clock forward and back without touching the bar".into(), "L4 split: a rise during a stall that begins with the estimate below the newest sample's rate is the documented double-smoothing behaviour (known finding); everything else is a violation".into()],
         bounds: json!({"depth_transient": d, "depth_steady": ds, "query_offsets_ns": QUERIES}),
         exhaustive: true,
